@@ -8,8 +8,8 @@ from .core import (PRELUDE, FamilyEmitter, Translator, Universe, Unsupported, pa
                    parse_functions)
 
 
-def build_universe(src: Path) -> Universe:
-    U = Universe()
+def build_universe(src: Path, universe_cls=Universe) -> Universe:
+    U = universe_cls()
     ttree = ast.parse((src / "tensora/ir/types.py").read_text())
     atree = ast.parse((src / "tensora/ir/ast.py").read_text())
     tclasses = parse_classes(ttree)
